@@ -1,12 +1,15 @@
 ---- MODULE InvalScen ----
 (* Scenario generator / I-layer for C20 (Client::maybePurgeOthers): GET a, GET b, then method M on a answered with
-   status S and a Location/Content-Location of some kind, then GET a and GET b again. *)
+   status S and a Location/Content-Location of some kind, then GET a and GET b again.  store: where the cached responses
+   live (memory cache, rock or ufs cache_dir); reader: whether another client is in the middle of receiving the cached
+   response of a (the entry is locked) when the unsafe request is answered. *)
 EXTENDS Naturals, TLC, Json
 VARIABLES par, pred
 vars == <<par, pred>>
 Unsafe == {"POST", "PUT", "DELETE", "PATCH", "FOO"}
 Init == /\ par \in [method : Unsafe \cup {"GET", "HEAD", "OPTIONS"}, status : {200, 201, 204, 302, 400, 500},
-                    loc : {"none", "rel", "abspath", "absurl", "otherport", "otherhost"}, hdr : {"Location", "Content-Location"}]
+                    loc : {"none", "rel", "abspath", "absurl", "otherport", "otherhost"}, hdr : {"Location", "Content-Location"},
+                    store : {"mem", "rock", "ufs"}, reader : {"none", "slow"}]
         /\ pred = [a |-> "?", b |-> "?"]
 Invalidates == par.method \in Unsafe /\ par.status < 400
 SameOrigin == par.loc \in {"rel", "abspath", "absurl"}
